@@ -215,6 +215,11 @@ Area2SetB(set) ==
       f[k \in 0..n] == IF k = 0 THEN GB!Zero ELSE GB!Add(f[k - 1], GB!Area2B(GB!BPath(set[k])))
   IN  f[n]
 
+AbsArea2SetB(set) ==
+  LET n == Len(set)
+      f[k \in 0..n] == IF k = 0 THEN GB!Zero ELSE GB!Add(f[k - 1], GB!AbsB(GB!Area2B(GB!BPath(set[k]))))
+  IN  f[n]
+
 OneHorizontal(path) == \A i \in 1..Len(path) : path[i][2] = path[1][2]
 
 PipExpected(pt, path) ==
@@ -224,7 +229,11 @@ PipExpected(pt, path) ==
 
 C14OK(e) ==
   CASE e.kind = "area"      -> AreaMatches(e.a2, e.a2int, GB!Area2B(GB!BPath(e.path)))
-    [] e.kind = "areapaths" -> AreaMatches(e.a2, e.a2int, Area2SetB(e.set))
+    \* the sum of the per-path areas: every term and every addition is rounded once, so the error is
+    \* relative to the sum of the absolute areas, not to the (possibly cancelling) total
+    [] e.kind = "areapaths" -> /\ e.a2int
+                               /\ GB!Cmp(GB!Mul(GB!AbsB(GB!Sub(e.a2, Area2SetB(e.set))), Pow2_52),
+                                         GB!Mul(AbsArea2SetB(e.set), GB!FromInt(2 * Len(e.set) + 2))) <= 0
     [] e.kind = "ispos"     -> e.b = (GB!Sign(GB!Area2B(GB!BPath(e.path))) >= 0)
     [] e.kind = "pip"       -> OneHorizontal(e.path) \/ e.pip = PipExpected(e.pt, e.path)
     [] e.kind = "bounds"    -> IF Len(e.path) = 0 THEN e.rect = <<0, 0, 0, 0>>
